@@ -710,11 +710,70 @@ def run_slicepair_case(sh, case):
   sh.count("slice_pair_designs_with_cross_overlap" if cross else "slice_pair_designs_disjoint")
 
 
+LOOPBACK_SRC = """
+from pymtl3 import *
+class LChild(Component):
+  def construct(s, n, inner):
+    s.in_ = [InPort(8) for _ in range(n)]; s.out = [OutPort(8) for _ in range(n)]; s.res = OutPort(8)
+    s.src = InPort(8)
+    @update
+    def up_first():
+      s.out[0] @= s.src + 1
+    for i in range(1, n):
+      s.out[i] //= s.in_[i - 1]                # a pass-through stage
+    for i in inner:
+      s.in_[i] //= s.out[i]                    # ILLEGAL: the child drives its own input port from its own output
+    @update
+    def up_res():
+      s.res @= s.in_[n - 1]
+class LTop(Component):
+  def construct(s, n, inner, order):
+    s.src = InPort(8); s.res = OutPort(8)
+    s.c = LChild(n, inner)
+    stmts = [(s.c.src, s.src), (s.res, s.c.res)] + [(s.c.in_[i], s.c.out[i]) for i in range(n) if i not in inner]   # loopbacks made by the PARENT: legal
+    for k in order:
+      if k < len(stmts): connect(*stmts[k])
+"""
+
+
+def run_loopback_case(sh, case):
+  """a chain out[0] -> in[0] -> out[1] -> in[1] ... through ONE child whose out -> in loopbacks are made by the parent (legal) except
+  for a random subset that the child closes itself (illegal: a component driving its own InPort), at any position of the chain and
+  with the parent's statements in any order: refused iff the subset is not empty, and simulating the legal ones gives src + 1"""
+  from pymtl3 import DefaultPassGroup
+  rng = sh.rng("loopback", case)
+  n = rng.randrange(2, 6)
+  inner = sorted(rng.sample(range(n), rng.choice([0, 0, 1, 1, 2]))) if n > 2 else rng.choice([[], [rng.randrange(n)]])
+  order = list(range(n + 2)); rng.shuffle(order)
+  mod = G.load_source(LOOPBACK_SRC, "c09loopback")
+  try:
+    try:
+      top = mod.LTop(n, inner, order); top.elaborate(); oc = None
+    except Exception as e: oc = type(e).__name__
+    sh.count("elaborations"); sh.count("loopback_designs_judged")
+    info = {"stages": n, "loopbacks_closed_by_the_child_itself": inner, "parent_statement_order": order}
+    if inner and oc is None:
+      sh.violation("defective-design-elaborated-without-error", dict(info, defect="a component connects its own OutPort to its own InPort", expected=["InvalidConnectionError", "SignalTypeError"],
+                   design_source=LOOPBACK_SRC), case=("loopback", case)); return
+    if not inner:
+      if oc is not None:
+        sh.violation("defect-free-design-rejected", dict(info, outcome=oc, design_source=LOOPBACK_SRC), case=("loopback", case)); return
+      top.apply(DefaultPassGroup()); top.sim_reset()
+      x = rng.getrandbits(8); top.src @= x; top.sim_eval_combinational()
+      if int(top.res) != (x + 1) & 255:
+        sh.violation("legal-design-computes-a-wrong-value", dict(info, src=x, res=int(top.res)), case=("loopback", case)); return
+      sh.count("legal_loopback_chains_simulated")
+    else: sh.count("loopback_rejection:" + str(oc))
+  finally:
+    G.unload(mod)
+
+
 def run_shard(sh):
   if sh.idx == 0: run_looprange_probe(sh)
   for case in range(6 if sh.tier == "quick" else 60):
     run_twice_probe(sh, sh.idx * 1000 + case)
     run_slicepair_case(sh, sh.idx * 1000 + case)
+    run_loopback_case(sh, sh.idx * 1000 + case)
   for case in range(12 if sh.tier == "quick" else 200):
     run_holey(sh, sh.idx * 1000 + case)
   for case in range(6 if sh.tier == "quick" else 60):
